@@ -229,6 +229,13 @@ class Specialiser:
             elif isinstance(n, jn.Assign):
                 if isinstance(n.target, jn.Name):
                     env[n.target.name] = "<assigned:" + jtext(n.node) + ">"
+                    if isinstance(n.node, (jn.Concat, jn.CondExpr, jn.Const, jn.Add)):
+                        # a text computed from the configuration ({% set helper = ("_stream" if .. else "_unary") ~ .. %})
+                        holes = len(self.holes)
+                        try:
+                            env[n.target.name] = self._value(n.node, env, loop)
+                        except AnalysisError:
+                            del self.holes[holes:]
             elif isinstance(n, jn.Macro):
                 # {% macro name(params) %}...{% endmacro %}: expanded where it is called
                 if not hasattr(self, "macros"):
